@@ -319,6 +319,21 @@ pub fn call_tx(
 
 /// the `force_*` variant where one exists, a one-call transaction otherwise
 pub fn call_force(m: &CMap2<f64>, c: &Call) -> Result<(), SewError> {
+    // links and unlinks, half of the argument pairs: the transactional form inside a caller's transaction that
+    // handles the error itself and COMMITS.  The cores test before they write (an unlink of a free dart writes
+    // null over null), so a failed call must publish nothing -- the model's answer is the one of the force_ form.
+    let swallow = match *c {
+        Call::Link1(l, r) | Call::Link2(l, r) => (l ^ r) & 1 == 1,
+        Call::Unlink1(l) | Call::Unlink2(l) => l & 1 == 1,
+        _ => false,
+    };
+    if swallow {
+        return honeycomb_core::stm::atomically(|t| match call_tx(m, t, c) {
+            Ok(()) => Ok(Ok(())),
+            Err(honeycomb_core::stm::TransactionError::Abort(e)) => Ok(Err(e)),
+            Err(honeycomb_core::stm::TransactionError::Stm(e)) => Err(e),
+        });
+    }
     match *c {
         Call::Link1(l, r) => m.force_link::<1>(l, r).map_err(SewError::from),
         Call::Link2(l, r) => m.force_link::<2>(l, r).map_err(SewError::from),
